@@ -112,6 +112,9 @@ let run (id : string) (_hdr : string list) (lines : string list list) (out : str
        | ["write"; t] ->
          dir := { (mkdir !dir) with d_manifest = Some (bytes_of_token t) };
          print_dir ()
+       | ["writetmp"; t] ->
+         dir := { (mkdir !dir) with d_tmp = Some (bytes_of_token t) };
+         print_dir ()
        | ["trunc"; n] ->
          dir := truncate_manifest (nat_of_int (int_of_string n)) !dir;
          print_dir ()
